@@ -14,28 +14,28 @@ import (
 )
 
 type Frame struct {
-	fn      *ssa.Function
-	regs    map[ssa.Value]*Val
-	cellOf  map[*ssa.Alloc]*Cell
-	params  []*Val
-	entry   *State // state at function entry (for old())
-	depth   int
-	prefix  string // obligation name prefix for inlined frames
-	con     *Contract
-	results []*types.Var
-	loops   map[*ssa.BasicBlock]*loopInfo
-	edgeOut map[[2]int]*State // (from,to) → state flowing along the edge
-	ovfN    int
-	idxN    map[string]int
-	retVals [][]*Val
-	retSts  []*State
-	panics  []*State
-	binds   []*Val
-	specVars map[string]*Val
-	rangeOf map[*ssa.Range]*rangeState
-	rangeOrd map[*ssa.Range]int
+	fn         *ssa.Function
+	regs       map[ssa.Value]*Val
+	cellOf     map[*ssa.Alloc]*Cell
+	params     []*Val
+	entry      *State // state at function entry (for old())
+	depth      int
+	prefix     string // obligation name prefix for inlined frames
+	con        *Contract
+	results    []*types.Var
+	loops      map[*ssa.BasicBlock]*loopInfo
+	edgeOut    map[[2]int]*State // (from,to) → state flowing along the edge
+	ovfN       int
+	idxN       map[string]int
+	retVals    [][]*Val
+	retSts     []*State
+	panics     []*State
+	binds      []*Val
+	specVars   map[string]*Val
+	rangeOf    map[*ssa.Range]*rangeState
+	rangeOrd   map[*ssa.Range]int
 	allocOrder []*ssa.Alloc
-	perReturn func(st *State, results []*Val, k int, pos token.Pos)
+	perReturn  func(st *State, results []*Val, k int, pos token.Pos)
 }
 
 type loopInfo struct {
@@ -157,7 +157,26 @@ func (vc *VC) execBody(fr *Frame, st *State) (*State, []*Val) {
 		}
 	}
 	order := rpo(fn)
+	if fr.depth == 0 {
+		// forward ancestors of every block (back edges cut)
+		vc.anc = map[int]map[int]bool{}
+		for _, b := range order {
+			a := map[int]bool{b.Index: true}
+			for _, p := range b.Preds {
+				if isBackEdge(p, b) {
+					continue
+				}
+				for k := range vc.anc[p.Index] {
+					a[k] = true
+				}
+			}
+			vc.anc[b.Index] = a
+		}
+	}
 	for _, b := range order {
+		if fr.depth == 0 {
+			vc.enterBlk(b.Index)
+		}
 		var ins []*State
 		if b.Index == 0 {
 			ins = append(ins, st)
@@ -178,6 +197,21 @@ func (vc *VC) execBody(fr *Frame, st *State) (*State, []*Val) {
 			cur = vc.enterLoop(fr, li, cur)
 		}
 		vc.execBlock(fr, b, cur, ins)
+	}
+	if fr.depth == 0 {
+		// the merged exit: reached from the returning blocks
+		a := map[int]bool{-2: true}
+		for _, b := range order {
+			if len(b.Instrs) > 0 {
+				if _, ok := b.Instrs[len(b.Instrs)-1].(*ssa.Return); ok {
+					for k := range vc.anc[b.Index] {
+						a[k] = true
+					}
+				}
+			}
+		}
+		vc.anc[-2] = a
+		vc.enterBlk(-2)
 	}
 	if len(fr.retSts) == 0 {
 		return nil, nil
